@@ -22,11 +22,11 @@ def generate(rng, tier):
 def signatures(case, lines):
     out = []
     for l in lines:
-        m = re.search(r'delivered≠published kind=(\S+) missing=\[([^\]]*)\] extra=\[\] producer=(\w+)', l)
+        m = re.search(r'delivered≠published kind=(\S+) missing=\[([^\]]*)\] extra=\[\] producer=(\w+) lwRegressed=(\w+)', l)
         if m and m.group(3) == 'single' and m.group(2).strip() == '0':
             out.append({'producer': 'single', 'missing': [0]})
         elif m and m.group(3) == 'multi' and m.group(1) == 'stranded-tail':
-            out.append({'producer': 'multi', 'kind': 'stranded-tail'})
+            out.append({'producer': 'multi', 'kind': 'stranded-tail', 'lw_regressed': m.group(4) == 'true'})
         else:
             out.append(None)
     return out
